@@ -307,6 +307,7 @@ func runC13(c *core.Ctx, r *core.Reporter) {
 	c.BuildSSA()
 	c13callers(c, r)
 	c13foreign(c, r)
+	c13owner(c, r)
 	an := lenflow.New(c)
 	const push = "C13.push"
 	const own = "C13.own"
@@ -370,6 +371,11 @@ func runC13(c *core.Ctx, r *core.Reporter) {
 					})
 					// ... and an edge of a test derived from a lookup of the same slot (empty, or owner compared)
 					slot := core.Separates(fn, b, an.NoReturn, func(ifi *ssa.If, branch bool) bool {
+						// `if ph := pkg.placeholderVar(name); ph != nil`: the slot holds only the unbound placeholder of
+						// a compiled reference, which is not a definition
+						if placeholderTest(ifi.Cond, owner, field) {
+							return branch
+						}
 						_, ok := condFromLookup(ifi.Cond, owner, field, 0)
 						if !ok {
 							return false
@@ -749,4 +755,46 @@ func mustPatchLambdasAfter(fn *ssa.Function, from ssa.Instruction, owner ssa.Val
 		return false
 	}
 	return !escapes(from.Block(), fromIdx, pass)
+}
+
+// placeholderTest: cond is `h(owner, key) != nil` where h is a method of package slip that returns an entry of its
+// receiver's `field` table only under a comparison with the unbound marker (a placeholder test helper).
+func placeholderTest(cond ssa.Value, owner ssa.Value, field string) bool {
+	bo, ok := cond.(*ssa.BinOp)
+	if !ok || bo.Op != token.NEQ {
+		return false
+	}
+	var call *ssa.Call
+	switch {
+	case isNilConst(bo.Y):
+		call, _ = bo.X.(*ssa.Call)
+	case isNilConst(bo.X):
+		call, _ = bo.Y.(*ssa.Call)
+	}
+	if call == nil {
+		return false
+	}
+	cal := call.Call.StaticCallee()
+	if cal == nil || cal.Pkg == nil || cal.Pkg.Pkg.Path() != core.SlipPath || cal.Signature.Recv() == nil || len(call.Call.Args) == 0 || len(cal.Params) == 0 {
+		return false
+	}
+	if !sameValue(call.Call.Args[0], owner) {
+		return false
+	}
+	looks, unboundCmp := false, false
+	for _, b := range cal.Blocks {
+		for _, in := range b.Instrs {
+			switch x := in.(type) {
+			case *ssa.Lookup:
+				if o, f, ok := tableOf(x.X); ok && f == field && o == ssa.Value(cal.Params[0]) {
+					looks = true
+				}
+			case *ssa.BinOp:
+				if (x.Op == token.EQL || x.Op == token.NEQ) && (isUnboundMarker(x.X) || isUnboundMarker(x.Y)) {
+					unboundCmp = true
+				}
+			}
+		}
+	}
+	return looks && unboundCmp
 }
